@@ -242,7 +242,7 @@ func runC20(r *Run, verifDir string) {
 				return
 			}
 			id := callID(c)
-			if id.pkg == "sync" && id.recv == "Map" && id.name == "Store" {
+			if id.pkg == "sync" && id.recv == "Map" && (id.name == "Store" || id.name == "LoadOrStore" || id.name == "Swap" || id.name == "CompareAndSwap") {
 				g := globalRoot(c.Args[0], 0)
 				if g != nil && g.Pkg != nil && g.Pkg.Pkg.Path() == ttlvPath && strings.Contains(g.Type().String(), "sync.Map") {
 					nCache++
